@@ -1,8 +1,313 @@
-import EPV.Spec.XPath1Paths
-namespace EPV.C01
-open EPV.XP
+/-
+C01 — path expressions select exactly the XDM-defined nodes, once, in document order.
+Only the property theorems; lemmas live in EPV/Lemmas/Axes*.lean.
 
-/-- stub while the pipeline is brought up -/
-theorem self_axis (m : Mode) (a : Arr) (n : Nat) : iterAxis m a .self n = [n] := rfl
+Reading guide
+* `Arr`, `Mode`      : an XML tree as a pre-order array of records (node = index, document order = `<`),
+                       and the root form (document / Element with dummy document / fragment)
+* `wfArr m a`        : decidable well-formedness of the encoding (the driver checks it on every tree)
+* `iterAxis m a ax n`: what the context iterator of `xpath_context.py` behind axis `ax` yields for
+                       context node `n` (model, keeps the implementation's algorithm)
+* `eval m a e f`     : `token.select(context)` for expression `e` and focus `f = (item, position, size)`
+* `Spec.onAxis`, `Spec.sem` : XPath 1.0 §2 — axes as predicates over parent / document order / kind;
+                       node-sets as "all nodes of the document, filtered", i.e. in document order
+* `safe m a e f`     : no trigger of a known finding (F01b, F01c, F01i) is hit while evaluating `e`
+The model mirrors the tree with the `fix:` commits of branch fix-c01 (see docs/C01.md).
+-/
+import EPV.Lemmas.AxesPath
+namespace EPV.C01
+open EPV.XP EPV.XP.Spec
+
+/-! ## the encoding -/
+
+/-- The decidable check implies the well-formedness propositions used by every theorem below. -/
+theorem wfArr_sound (m : Mode) (a : Arr) (h : wfArr m a = true) : WF m a := wf_of_wfArr h
+
+/-- In a well-formed array "`q` is on the parent chain of `i`" (how the specification defines
+ancestor) is the same as "`i` lies in the subtree interval of `q`" (what the model's descendant /
+following / preceding iterators use). -/
+theorem anc_iff_interval (m : Mode) (a : Arr) (h : wfArr m a = true) (q i : Nat) (hi : i < a.length) :
+    isAnc a q i = true ↔ (q < i ∧ i ≤ q + sz a q) :=
+  isAnc_iff (wf_of_wfArr h) hi
+
+/-- The specification's ancestor relation is the transitive closure of `parent`. -/
+inductive Anc (a : Arr) : Nat → Nat → Prop
+  | parent {q i : Nat} : par a i = some q → Anc a q i
+  | step {q p i : Nat} : par a i = some p → Anc a q p → Anc a q i
+
+theorem anc_iff_closure (m : Mode) (a : Arr) (h : wfArr m a = true) (q i : Nat) (hi : i < a.length) :
+    isAnc a q i = true ↔ Anc a q i := by
+  have w := wf_of_wfArr h
+  constructor
+  · intro hq
+    unfold isAnc ancOf at hq
+    rw [List.contains_iff_mem] at hq
+    have key : ∀ (fuel i : Nat), i < a.length → q ∈ ancUp a fuel i → Anc a q i := by
+      intro fuel
+      induction fuel with
+      | zero => intro i _ hm; simp [ancUp] at hm
+      | succ fuel ih =>
+        intro i hi hm
+        unfold ancUp at hm
+        cases hp : par a i with
+        | none => rw [hp] at hm; simp at hm
+        | some p =>
+          rw [hp] at hm
+          simp only [List.mem_cons] at hm
+          rcases hm with rfl | hm
+          · exact Anc.parent hp
+          · exact Anc.step hp (ih p (w.par_lt_len hi hp) hm)
+    exact key i i hi hq
+  · intro hq
+    have key : ∀ {q i : Nat}, Anc a q i → i < a.length → isAnc a q i = true := by
+      intro q i hq
+      induction hq with
+      | @parent i hp =>
+        intro hi
+        exact (isAnc_iff w hi).2 (w.parLt i q hi hp)
+      | @step p i hp _ ih =>
+        intro hi
+        have hpl := w.par_lt_len hi hp
+        have h1 := (isAnc_iff w hpl).1 (ih hpl)
+        have h2 := w.parLt i p hi hp
+        have := w.nest p q hpl h1.1 h1.2
+        exact (isAnc_iff w hi).2 ⟨by omega, by omega⟩
+    exact key hq hi
+
+/-! ## the thirteen axes -/
+
+/-- **axis_eq_spec.**  For every well-formed tree, root form and context node, the nodes yielded by
+the implementation's iterator for axis `ax` are exactly the nodes of the document that the XPath
+specification puts on that axis, each once, in document order — for all thirteen axes, except for
+the two context kinds of the known findings (`axisOK`: `following` from an attribute/namespace
+node, `attribute` from an attribute node). -/
+theorem axis_eq_spec (m : Mode) (a : Arr) (hw : wfArr m a = true) (ax : Axis) (n : Nat)
+    (hn : n < a.length) (hok : axisOK a ax n = true) :
+    iterAxis m a ax n = (allNodes a).filter (onAxis m a ax n) :=
+  axis_eq (wf_of_wfArr hw) hn ax hok
+
+theorem self_eq_spec (m : Mode) (a : Arr) (n : Nat) (hn : n < a.length) :
+    iterAxis m a .self n = (allNodes a).filter (onAxis m a .self n) := self_eq hn
+
+theorem child_eq_spec (m : Mode) (a : Arr) (hw : wfArr m a = true) (n : Nat) (hn : n < a.length) :
+    iterAxis m a .child n = (allNodes a).filter (onAxis m a .child n) := child_eq (wf_of_wfArr hw) hn
+
+theorem descendant_eq_spec (m : Mode) (a : Arr) (hw : wfArr m a = true) (n : Nat) (hn : n < a.length) :
+    iterAxis m a .descendant n = (allNodes a).filter (onAxis m a .descendant n) :=
+  descendant_eq (wf_of_wfArr hw) hn
+
+theorem descendantOrSelf_eq_spec (m : Mode) (a : Arr) (hw : wfArr m a = true) (n : Nat)
+    (hn : n < a.length) :
+    iterAxis m a .descendantOrSelf n = (allNodes a).filter (onAxis m a .descendantOrSelf n) :=
+  descendantOrSelf_eq (wf_of_wfArr hw) hn
+
+theorem parent_eq_spec (m : Mode) (a : Arr) (hw : wfArr m a = true) (n : Nat) (hn : n < a.length) :
+    iterAxis m a .parent n = (allNodes a).filter (onAxis m a .parent n) := parent_eq (wf_of_wfArr hw) hn
+
+/-- `iter_ancestors` returns `reversed(ancestors)`: document order -/
+theorem ancestor_eq_spec (m : Mode) (a : Arr) (hw : wfArr m a = true) (n : Nat) (hn : n < a.length) :
+    iterAxis m a .ancestor n = (allNodes a).filter (onAxis m a .ancestor n) :=
+  ancestor_eq (wf_of_wfArr hw) hn
+
+theorem ancestorOrSelf_eq_spec (m : Mode) (a : Arr) (hw : wfArr m a = true) (n : Nat)
+    (hn : n < a.length) :
+    iterAxis m a .ancestorOrSelf n = (allNodes a).filter (onAxis m a .ancestorOrSelf n) :=
+  ancestorOrSelf_eq (wf_of_wfArr hw) hn
+
+/-- the `follows` flag loop over the parent's children; attribute / namespace context: empty -/
+theorem followingSibling_eq_spec (m : Mode) (a : Arr) (hw : wfArr m a = true) (n : Nat)
+    (hn : n < a.length) :
+    iterAxis m a .followingSibling n = (allNodes a).filter (onAxis m a .followingSibling n) :=
+  followingSibling_eq (wf_of_wfArr hw) hn
+
+theorem precedingSibling_eq_spec (m : Mode) (a : Arr) (hw : wfArr m a = true) (n : Nat)
+    (hn : n < a.length) :
+    iterAxis m a .precedingSibling n = (allNodes a).filter (onAxis m a .precedingSibling n) :=
+  precedingSibling_eq (wf_of_wfArr hw) hn
+
+/-- `iter_preceding`: walk of the root's descendants up to the item (owner element for an
+attribute / namespace item) minus the collected ancestors — all context kinds. -/
+theorem preceding_eq_spec (m : Mode) (a : Arr) (hw : wfArr m a = true) (n : Nat) (hn : n < a.length) :
+    iterAxis m a .preceding n = (allNodes a).filter (onAxis m a .preceding n) :=
+  preceding_eq (wf_of_wfArr hw) hn
+
+theorem namespace_eq_spec (m : Mode) (a : Arr) (hw : wfArr m a = true) (n : Nat) (hn : n < a.length) :
+    iterAxis m a .namespace n = (allNodes a).filter (onAxis m a .namespace n) :=
+  namespace_eq (wf_of_wfArr hw) hn
+
+/-- PARTIAL (finding F01b).  `iter_followings` = the specification's following axis for every
+context node that is not an attribute or namespace node.  The full statement (any context node) is
+false on the pinned tree: `following_fails_on_attribute`. -/
+theorem following_eq_spec_partial (m : Mode) (a : Arr) (hw : wfArr m a = true) (n : Nat)
+    (hn : n < a.length) (hk : isAN a n = false) :
+    iterAxis m a .following n = (allNodes a).filter (onAxis m a .following n) :=
+  following_eq (wf_of_wfArr hw) hn (by simp [okF01b, hk])
+
+/-- PARTIAL (finding F01c).  `iter_attributes` = the specification's attribute axis for every
+context node that is not itself an attribute.  Full statement false: `attribute_fails_on_attribute`. -/
+theorem attribute_eq_spec_partial (m : Mode) (a : Arr) (hw : wfArr m a = true) (n : Nat)
+    (hn : n < a.length) (hk : kd a n ≠ .attr) :
+    iterAxis m a .attribute n = (allNodes a).filter (onAxis m a .attribute n) :=
+  attribute_eq (wf_of_wfArr hw) hn (by simp [okF01c, hk])
+
+/-- Every axis iterator yields a strictly increasing index list: each node once, in document
+order — also the reverse axes (their proximity positions are assigned by `focus_position_reverse`). -/
+theorem axis_ordered_nodup (m : Mode) (a : Arr) (hw : wfArr m a = true) (ax : Axis) (n : Nat)
+    (hn : n < a.length) (hok : axisOK a ax n = true) :
+    (iterAxis m a ax n).Pairwise (· < ·) ∧ (iterAxis m a ax n).Nodup := by
+  rw [axis_eq_spec m a hw ax n hn hok]
+  exact ⟨range_filter_sorted _ _, nodup_of_sorted (range_filter_sorted _ _)⟩
+
+/-! ## steps and predicates -/
+
+/-- **focus_position_reverse.**  The focus sequence over which a predicate `[p]` of `e` is
+evaluated (`select_with_focus`: reverse axes counted down from `len(results)`; later predicates of a
+reverse step re-numbered) assigns to every node its XPath proximity position: index in document
+order for forward steps and filter expressions, index in reverse document order for all
+predicates of a reverse-axis step; context size = number of nodes. -/
+theorem focus_position_reverse (e : Expr) (l : List Nat) (h : l.Pairwise (· < ·)) :
+    predFocus e l = l.map fun n => ⟨n, proximity (predAxisReverse e) l n, l.length⟩ :=
+  predFocus_eq e (nodup_of_sorted h)
+
+/-- One location step: axis iterator + node test = the specification's step, outside the three
+finding triggers (`stepSafe`). -/
+theorem step_eq_spec_partial (m : Mode) (a : Arr) (hw : wfArr m a = true) (ax : Axis) (t : Test)
+    (abbr : Bool) (n : Nat) (hn : n < a.length) (hs : stepSafe m a ax abbr n = true) :
+    evalStep m a ax t abbr n = stepSet m a ax t n :=
+  evalStep_eq (wf_of_wfArr hw) hn ax t abbr hs
+
+/-! ## paths -/
+
+/-- **path_eq_spec (PARTIAL: findings F01b, F01c, F01i).**  For every well-formed tree, every
+root form, every expression `e` of the typed fragment (steps on all thirteen axes with name / kind
+tests, any number of predicates — numbers, `position()`/`last()` comparisons, paths, `and`/`or`/`not`
+—, `/`, `//`, leading `/` and `//`, `.`, `..`, `@`, parenthesised sub-paths) and every context
+(node, position, size): the implementation's `select` returns exactly the value the
+specification defines — for node-sets: the same nodes, each once, in document order —
+provided no finding trigger is hit during the evaluation (`safe`).
+Full statement (without `safe`) is false on the pinned tree: see the `*_fails_*` theorems. -/
+theorem path_eq_spec_partial (m : Mode) (a : Arr) (hw : wfArr m a = true) (e : Expr) (t : Ty)
+    (f : Focus) (ht : ty e = some t) (hf : f.item < a.length) (hs : safe m a e f = true) :
+    eval m a e f = sem m a e f :=
+  eval_eq_sem_aux (wf_of_wfArr hw) e t f ht hf hs
+
+/-- **path_sound.**  Same hypotheses: a node is selected iff the specification selects it. -/
+theorem path_sound_partial (m : Mode) (a : Arr) (hw : wfArr m a = true) (e : Expr) (f : Focus)
+    (ht : ty e = some .path) (hf : f.item < a.length) (hs : safe m a e f = true) (x : Nat) :
+    x ∈ nodesOf (eval m a e f) ↔ x ∈ nodesOf (sem m a e f) := by
+  rw [path_eq_spec_partial m a hw e .path f ht hf hs]
+
+/-- **path_ordered / path_nodup.**  Same hypotheses: the selected nodes come out in document order
+and without duplicates (strictly increasing indices, all of them nodes of the tree). -/
+theorem path_ordered_partial (m : Mode) (a : Arr) (hw : wfArr m a = true) (e : Expr) (f : Focus)
+    (ht : ty e = some .path) (hf : f.item < a.length) (hs : safe m a e f = true) :
+    ∃ l, eval m a e f = .nodes l ∧ l.Pairwise (· < ·) ∧ l.Nodup ∧ ∀ x ∈ l, x < a.length := by
+  rw [path_eq_spec_partial m a hw e .path f ht hf hs]
+  obtain ⟨l, hl⟩ := hasTy_path (sem_typed (m := m) (a := a) e .path f ht)
+  have := sem_good e f l hf hl
+  exact ⟨l, hl, this.1, nodup_of_sorted this.1, this.2⟩
+
+/-- The results of the path operators `/`, `//` (two operands) and leading `//` are in document
+order and duplicate free **unconditionally** (any array, any operands): the seen-set followed by
+the sort by node position (fix F01). -/
+theorem path_operator_ordered (m : Mode) (a : Arr) (l r : Expr) (f : Focus) (ls : List Nat)
+    (h : eval m a (.slash l r) f = .nodes ls ∨ eval m a (.dslash l r) f = .nodes ls ∨
+         eval m a (.droot r) f = .nodes ls) : ls.Pairwise (· < ·) := by
+  have key : ∀ rs : List Nat, (docOrder rs).Pairwise (· < ·) :=
+    fun rs => sorted_isort _ (nodup_dedup rs [])
+  rcases h with h | h | h
+  · simp only [eval] at h
+    split at h
+    · split at h
+      · simp only [Val.nodes.injEq] at h; subst h; exact key _
+      · cases h
+    · cases h
+  · simp only [eval] at h
+    split at h
+    · split at h
+      · simp only [Val.nodes.injEq] at h; subst h; exact key _
+      · cases h
+    · cases h
+  · simp only [eval] at h
+    split at h
+    · simp only [Val.nodes.injEq] at h; subst h; exact key _
+    · cases h
+
+/-- The specification never yields an error on a typed expression, and its node-sets are strictly
+increasing lists of valid indices (so `path_eq_spec_partial` is not an equation between errors). -/
+theorem spec_total_ordered (m : Mode) (a : Arr) (e : Expr) (f : Focus) (ht : ty e = some .path)
+    (hf : f.item < a.length) :
+    ∃ l, sem m a e f = .nodes l ∧ l.Pairwise (· < ·) ∧ ∀ x ∈ l, x < a.length := by
+  obtain ⟨l, hl⟩ := hasTy_path (sem_typed (m := m) (a := a) e .path f ht)
+  have := sem_good e f l hf hl
+  exact ⟨l, hl, this.1, this.2⟩
+
+/-! ## machine-checked witnesses of the known findings, and satisfiability of the hypotheses -/
+
+/-- `<a><b k="1"><c/></b><d/></a>` as an Element root with `fragment=True`
+(0 a, 1 ns xml, 2 b, 3 ns xml, 4 @k, 5 c, 6 ns xml, 7 d, 8 ns xml) -/
+def w1 : Arr :=
+  [⟨.elem, "", "a", none, 8⟩, ⟨.ns, "", "xml", some 0, 0⟩,
+   ⟨.elem, "", "b", some 0, 4⟩, ⟨.ns, "", "xml", some 2, 0⟩, ⟨.attr, "", "k", some 2, 0⟩,
+   ⟨.elem, "", "c", some 2, 1⟩, ⟨.ns, "", "xml", some 5, 0⟩,
+   ⟨.elem, "", "d", some 0, 1⟩, ⟨.ns, "", "xml", some 7, 0⟩]
+
+/-- the same tree as an Element root in the default form (record 0 = dummy document) -/
+def w2 : Arr :=
+  [⟨.doc, "", "", none, 0⟩,
+   ⟨.elem, "", "a", none, 8⟩, ⟨.ns, "", "xml", some 1, 0⟩,
+   ⟨.elem, "", "b", some 1, 4⟩, ⟨.ns, "", "xml", some 3, 0⟩, ⟨.attr, "", "k", some 3, 0⟩,
+   ⟨.elem, "", "c", some 3, 1⟩, ⟨.ns, "", "xml", some 6, 0⟩,
+   ⟨.elem, "", "d", some 1, 1⟩, ⟨.ns, "", "xml", some 8, 0⟩]
+
+/-- F01b: `//@k/following::*` — the implementation selects nothing, the specification `c, d`. -/
+theorem following_fails_on_attribute :
+    wfArr .frag w1 = true ∧
+    iterAxis .frag w1 .following 4 = [] ∧
+    (allNodes w1).filter (onAxis .frag w1 .following 4) = [5, 7] ∧
+    eval .frag w1 (.slash (.droot (.step .attribute (.name "" "k") true)) (.step .following .any false)) ⟨0, 1, 1⟩
+      = .nodes [] ∧
+    sem .frag w1 (.slash (.droot (.step .attribute (.name "" "k") true)) (.step .following .any false)) ⟨0, 1, 1⟩
+      = .nodes [5, 7] ∧
+    safe .frag w1 (.slash (.droot (.step .attribute (.name "" "k") true)) (.step .following .any false)) ⟨0, 1, 1⟩
+      = false := by decide +kernel
+
+/-- F01c: `//@k/@k` — the implementation selects the attribute itself, the specification nothing. -/
+theorem attribute_fails_on_attribute :
+    iterAxis .frag w1 .attribute 4 = [4] ∧
+    (allNodes w1).filter (onAxis .frag w1 .attribute 4) = [] ∧
+    eval .frag w1 (.slash (.droot (.step .attribute (.name "" "k") true)) (.step .attribute (.name "" "k") true)) ⟨0, 1, 1⟩
+      = .nodes [4] ∧
+    sem .frag w1 (.slash (.droot (.step .attribute (.name "" "k") true)) (.step .attribute (.name "" "k") true)) ⟨0, 1, 1⟩
+      = .nodes [] := by decide +kernel
+
+/-- F01i: Element root, default form: `/child::a` selects nothing while `/a` selects the root
+element; the specification selects it in both spellings. -/
+theorem explicit_child_fails_on_dummy_document :
+    wfArr .dummy w2 = true ∧
+    eval .dummy w2 (.root (.step .child (.name "" "a") false)) ⟨1, 1, 1⟩ = .nodes [] ∧
+    eval .dummy w2 (.root (.step .child (.name "" "a") true)) ⟨1, 1, 1⟩ = .nodes [1] ∧
+    sem .dummy w2 (.root (.step .child (.name "" "a") false)) ⟨1, 1, 1⟩ = .nodes [1] ∧
+    safe .dummy w2 (.root (.step .child (.name "" "a") false)) ⟨1, 1, 1⟩ = false := by decide +kernel
+
+/-- The hypotheses of `path_eq_spec_partial` hold on a non-trivial state (test, on literals):
+`//*[not(c)]/preceding::*[1]/..` and `(//c/ancestor::*)[last()]/@k` hmm — a reverse axis with a
+numeric predicate after a multi-node step, evaluated on `w1`. -/
+example :
+    wfArr .frag w1 = true ∧
+    ty (.slash (.slash (.droot (.pred (.step .child .any true) (.not (.step .child (.name "" "c") true))))
+        (.pred (.step .preceding .any false) (.num 1))) .parentAbbr) = some .path ∧
+    safe .frag w1 (.slash (.slash (.droot (.pred (.step .child .any true) (.not (.step .child (.name "" "c") true))))
+        (.pred (.step .preceding .any false) (.num 1))) .parentAbbr) ⟨0, 1, 1⟩ = true ∧
+    eval .frag w1 (.slash (.slash (.droot (.pred (.step .child .any true) (.not (.step .child (.name "" "c") true))))
+        (.pred (.step .preceding .any false) (.num 1))) .parentAbbr) ⟨0, 1, 1⟩ = .nodes [2] := by
+  decide +kernel
+
+/-- test: the formerly unordered `//x/y` shape — `//b/following-sibling::*/..//*` on `w1` — and the
+hypotheses of the partial axis theorems are satisfiable. -/
+example :
+    isAN w1 5 = false ∧ iterAxis .frag w1 .following 5 = [7] ∧
+    kd w1 2 ≠ .attr ∧ iterAxis .frag w1 .attribute 2 = [4] ∧
+    axisOK w1 .preceding 4 = true ∧ iterAxis .frag w1 .preceding 7 = [2, 5] := by decide +kernel
 
 end EPV.C01
